@@ -179,6 +179,21 @@ theorem concat_bindingTailP (afterItems : List Trivia) (i : Nat) (r : Text) :
 theorem concat_recP (r : Bool) : concat (recP r) = if r then ['r', 'e', 'c', ' '] else [] := by
   cases r <;> rfl
 
+theorem concat_fnAfterP : ∀ (cs : List Comment) (acc : List FP) (i : Nat),
+    concat (fnAfterP acc cs i) = fnAfterStr (concat acc) cs i
+  | [], acc, i => rfl
+  | c :: rest, acc, i => by
+    simp only [fnAfterP, fnAfterStr]
+    split
+    · rw [concat_fnAfterP rest]
+      congr 1
+      simp only [concat_append, concat_cmtP, concat_ite, concat_nil, concat_cons, text_ws]
+      split <;> simp
+    · rw [concat_fnAfterP rest]
+      congr 1
+      simp only [concat_append, concat_cmtP, concat_ite, concat_nil, concat_cons, text_ws]
+      split <;> simp
+
 /-! ### the piece-level renderer concatenates to the string-level renderer -/
 
 mutual
@@ -220,6 +235,21 @@ theorem concat_rebuildAP : (e : Expr) → ∀ (na : Bool) (i : Nat) (b : Bool),
       · exact ihp vi
     rw [hp]
     simp [List.append_assoc]
+  | .paren value lg tg lb tb before after, na, i, b => by
+    have ihv := concat_rebuildAP value
+    simp only [Expr.rebuildAP, Expr.rebuildA, concat_addTriviaP]
+    congr 1
+    simp only [concat_cons, concat_append, text_tok, concat_nil, List.append_nil]
+    congr 1
+    by_cases h1 : (Layout.fromGap lg).onNewline = true <;> by_cases h2 : (Layout.fromGap tg).onNewline = true <;>
+      simp [h1, h2, ihv]
+  | .app name arg g fa before after, na, i, b => by
+    have ihn := concat_rebuildAP name
+    have iha := concat_rebuildAP arg
+    simp only [Expr.rebuildAP, Expr.rebuildA, concat_addTriviaP]
+    generalize (Layout.fromGap g).onNewline = on
+    generalize (if on = true then (Layout.fromGap g).indent.getD (i + 2) else i) = ai
+    simp only [concat_append, concat_cons, text_ws, concat_fnAfterP, ihn, apply_ite concat, iha, List.append_assoc]
 theorem concat_rebuildAllP : (es : List Expr) → ∀ (i : Nat) (b : Bool),
     (rebuildAllP es i b).map concat = rebuildAll es i b
   | [], i, b => rfl
@@ -229,6 +259,8 @@ theorem concat_previewP : (e : Expr) → ∀ (i : Nat), (e.previewP i).map conca
   | .leaf .., i => rfl
   | .set .., i => rfl
   | .binding .., i => rfl
+  | .paren .., i => rfl
+  | .app .., i => rfl
   | .list value ml inner before after, i => by
     have ihs := fun i b => concat_rebuildAllP value i b
     simp only [Expr.previewP, Expr.preview]
